@@ -21,7 +21,7 @@ Step ==
          first == e.i = 0
          t0 == IF first THEN <<>> ELSE text
          al0 == IF first THEN FALSE ELSE alive
-         creates == e.op \in {"new", "from_str"}
+         creates == e.op \in {"new", "from_str", "from_iter", "from_utf8_unchecked"}
          decoder == e.op \in {"from_utf8", "from_utf8_lossy", "from_utf16"}
          acts == creates \/ (al0 /\ ~decoder)
          x == Sem(e, t0)
@@ -42,15 +42,18 @@ Step ==
      /\ Chk("C14", "ProducedStringAsSpecified",
             (acts /\ okPath /\ ~panicked /\ ~x.panics /\ x.hasOther) => e.otherok = 1 /\ e.other = x.other,
             <<x.other, e.other>>)
+     \* every read-only view / comparison / formatting / hashing of the String agrees with the same on its text
+     /\ Chk("C14", "ViewsAgreeWithTheText", (e.op = "str_views" /\ ~panicked) => e.retn = 0, <<e.s, e.retn>>)
+     /\ Chk("C14", "IntoBytesHandsOverTheSameBytes", (e.op = "into_bytes_roundtrip" /\ ~panicked) => e.retn = 1, e.retn)
      /\ Chk("C14", "CapacityNeverBelowLength", e.len >= 0 => e.cap >= e.len, <<e.len, e.cap>>)
      /\ Chk("C14", "ReservedCapacityAvailable",
             (e.op \in {"reserve", "reserve_exact"} /\ e.res = "ok" /\ e.len >= 0 /\ e.a >= 0) => e.cap >= e.len + e.a,
             <<e.len, e.a, e.cap>>)
      /\ Chk("C18", "AmortisedGrowthAtLeastDoubles",
-            (e.moved = 1 /\ e.cap0 > 0 /\ ~panicked /\ e.op \in {"push", "push_str", "insert", "insert_str", "extend", "write_fmt", "reserve"})
+            (e.moved = 1 /\ e.cap0 > 0 /\ ~panicked /\ e.op \in {"push", "push_str", "insert", "insert_str", "extend", "write_fmt", "reserve", "extend_strs", "add", "add_assign", "as_mut_vec_push"})
                => e.cap >= 2 * e.cap0, <<e.op, e.cap0, e.cap>>)
      /\ Chk("C18", "NoMoveWithinReservedCapacity",
-            (e.moved = 1 /\ e.op \in {"push", "push_str", "insert", "insert_str", "extend", "write_fmt"} /\ ~panicked /\ e.cap0 >= 0)
+            (e.moved = 1 /\ e.op \in {"push", "push_str", "insert", "insert_str", "extend", "write_fmt", "extend_strs", "add", "add_assign", "as_mut_vec_push"} /\ ~panicked /\ e.cap0 >= 0)
                => e.len > e.cap0, <<e.len, e.cap0>>)
      \* ---- decoders --------------------------------------------------------
      /\ Chk("C14", "FromUtf8AcceptsExactlyWellFormedInput",
